@@ -61,3 +61,21 @@ def prefix_implies_descendant(u, v, suffix_aware):
     if not _is_prefix(su, sv):
         return True
     return ok
+
+
+# ---- signatures of known findings ------------------------------------------
+from ural.tld import split_suffix
+
+
+def sig_ancestor_inside_public_suffix(u, v, suffix_aware):
+    """suffix-aware stems keep a multi-label public suffix in one stem: an ancestor whose host is only a part of
+    the descendant's public suffix ('uk' above 'x.co.uk') is not a stem prefix"""
+    if not suffix_aware:
+        return False
+    hu = urlsplit(ensure_protocol(u)).hostname or ""
+    hv = urlsplit(ensure_protocol(v)).hostname or ""
+    r = split_suffix(hv)
+    if r is None:
+        return False
+    suffix = r[1]
+    return suffix != hu and suffix.endswith("." + hu)
